@@ -92,7 +92,11 @@ def run_case(c):
         R.append(call("channel", {"c": ch, "via": "constructor"}, lambda: Note("C", 4, channel=ch).channel, integer))
     elif k == "badname":
         s = txt(c["s"])
-        R.append(call("badname", {"s": list(s)}, lambda: proj(Note(s))))
+        R.append(call("badname", {"s": list(s), "via": "constructor"}, lambda: proj(Note(s))))
+        if "-" not in s:      # the same malformed name through the other ways of naming a note
+            R.append(call("badname", {"s": list(s), "via": "constructor with octave"}, lambda: proj(Note(s, 4))))
+            R.append(call("badname", {"s": list(s), "via": "set_note"}, lambda: proj((Note("D", 3).set_note(s), Note("D", 3))[1])))
+            R.append(call("badname", {"s": list(s), "via": "name-octave text"}, lambda: proj(Note(s + "-4"))))
     elif k == "tr":
         n, o, sh = txt(c["n"]), c["o"], txt(c["sh"])
         for up in (True, False):
@@ -103,8 +107,12 @@ def run_case(c):
             x = Note(n, o); x.transpose(sh, True); x.transpose(sh, False); return proj(x)
         R.append(call("transpose_updown", {"n": list(n), "o": o, "sh": list(sh)}, g))
     elif k == "octave":
-        o, d = c["o"], c["diff"]
+        o, d, n = c["o"], c["diff"], txt(c["n"])
         def h():
-            x = Note("C", o); x.change_octave(d); return x.octave
-        R.append(call("change_octave", {"o": o, "diff": d}, h, integer))
+            x = Note(n, o); x.change_octave(d); return x.octave
+        R.append(call("change_octave", {"n": list(n), "o": o, "diff": d, "via": "change_octave"}, h, integer))
+        if d in (1, -1):
+            def h2():
+                x = Note(n, o); (x.octave_up() if d == 1 else x.octave_down()); return x.octave
+            R.append(call("change_octave", {"n": list(n), "o": o, "diff": d, "via": "octave_up/down"}, h2, integer))
     return R
